@@ -1473,6 +1473,10 @@ impl TypeChecker {
                         elaboration_kind: "unit definition",
                     })?;
 
+                // A unit is defined by a quantity: strings, booleans, lists, functions, ... are
+                // not allowed on the right hand side.
+                self.enforce_dtype(&type_deduced, expr.full_span())?;
+
                 for (name, _) in decorator::name_and_aliases(identifier, decorators) {
                     self.env.add(
                         name.to_compact_string(),
